@@ -7,6 +7,7 @@ SYNCED = "kvstore/mapdb/synced_map.go:"
 
 
 FLUSH = "kvstore/flushkv/flushkv.go:"
+DEBUG = "kvstore/debug/debug.go:"
 
 # functions whose exact (gofmt-normalised, comment-free) text is pinned: the ones the protocol model summarises without
 # a lock skeleton of their own - "loads the flag, touches no lock, returns a NEW object with a zero-valued lock" - and the
@@ -19,7 +20,45 @@ SRCPIN = [
     FLUSH + "flushKVStore.Iterate", FLUSH + "flushKVStore.IterateKeys", FLUSH + "flushKVStore.Flush", FLUSH + "flushKVStore.Close",
     FLUSH + "flushKVStore.Batched", FLUSH + "batchedMutations.Commit=flush_batch_Commit", FLUSH + "batchedMutations.Set=flush_batch_Set",
     FLUSH + "batchedMutations.Delete=flush_batch_Delete", FLUSH + "batchedMutations.Cancel=flush_batch_Cancel",
+    FLUSH + "flushKVStore.WithExtendedRealm", FLUSH + "flushKVStore.Realm",
+    # the debug wrapper, completely: "if the callback is set and the command passes the filter: callback; then the wrapped call"
+    DEBUG + "New=debug_New", DEBUG + "debugStore.WithRealm", DEBUG + "debugStore.WithExtendedRealm", DEBUG + "debugStore.Realm",
+    DEBUG + "debugStore.Iterate", DEBUG + "debugStore.IterateKeys", DEBUG + "debugStore.Clear", DEBUG + "debugStore.Get",
+    DEBUG + "debugStore.Set", DEBUG + "debugStore.Has", DEBUG + "debugStore.Delete", DEBUG + "debugStore.DeletePrefix",
+    DEBUG + "debugStore.Flush", DEBUG + "debugStore.Close", DEBUG + "debugStore.Batched",
+    DEBUG + "batchedMutations.Set=debug_batch_Set", DEBUG + "batchedMutations.Delete=debug_batch_Delete",
+    DEBUG + "batchedMutations.Cancel=debug_batch_Cancel", DEBUG + "batchedMutations.Commit=debug_batch_Commit",
 ]
+
+# every method of the two wrappers: their call skeletons (which wrapped method is called, in which order, behind which early
+# return) - what `compile` of the wrapper calls (fset ..., callback) mirrors
+WRAP_METHODS = ["Set", "Get", "Has", "Delete", "DeletePrefix", "Clear", "Iterate", "IterateKeys", "Flush", "Close", "Batched",
+                "Commit", "Cancel", "WithRealm", "Realm", "accessCallback", "HasBits"]
+STORE_METHODS = ["WithRealm", "WithExtendedRealm", "Realm", "Iterate", "IterateKeys", "Clear", "Get", "Set", "Has", "Delete",
+                 "DeletePrefix", "Flush", "Close", "Batched"]
+BATCH_METHODS = ["Set", "Delete", "Cancel", "Commit"]
+WRAPSKEL = [
+    ("Hive.Gen.C05WrapSkel.Flush", [FLUSH + "flushAfterMutation", FLUSH + "New"] + [FLUSH + "flushKVStore." + m for m in STORE_METHODS]
+     + [FLUSH + "batchedMutations." + m for m in BATCH_METHODS] + [FLUSH + "type=flushKVStore", FLUSH + "type=batchedMutations"]),
+    ("Hive.Gen.C05WrapSkel.Debug", [DEBUG + "New"] + [DEBUG + "debugStore." + m for m in STORE_METHODS]
+     + [DEBUG + "batchedMutations." + m for m in BATCH_METHODS] + [DEBUG + "type=debugStore", DEBUG + "type=batchedMutations"]),
+]
+
+
+def regen_wrapskel(ctx):
+    """Regenerates lean/Hive/Gen/C05_WrapSkel.lean: two namespaces (the two wrappers both have a type batchedMutations)."""
+    out = os.path.join(checklib.LEAN, "Hive", "Gen", "C05_WrapSkel.lean")
+    text = ""
+    for i, (ns, reqs) in enumerate(WRAPSKEL):
+        tmp = os.path.join(ctx.scratch, "C05_WrapSkel_%d.lean" % i)
+        args = ["go", "run", "./tools/extract-sync", tmp, ns] + ["+" + m for m in WRAP_METHODS]
+        args += [os.path.join(ctx.repo, r) for r in reqs]
+        rc, log = checklib.sh(args, cwd=checklib.HARNESS, timeout=600)
+        if rc != 0 or not os.path.exists(tmp):
+            return [{"kind": "skeleton-extractor", "detail": "wrapper skeletons: " + checklib.tail(log, 20)}]
+        text += open(tmp).read() + "\n"
+    checklib.write_gen(ctx, out, text)
+    return []
 
 
 def regen_srcpin(ctx):
@@ -37,6 +76,22 @@ def regen_srcpin(ctx):
     return []
 
 
+LOCKSET_PKGS = ["kvstore/mapdb", "kvstore/flushkv", "kvstore/debug"]
+
+
+def regen_lockset(ctx):
+    """Regenerates lean/Hive/Gen/C05_Lockset.lean (namespace Hive.Gen.C05Lockset) with harness/c05/lockset: for EVERY function of
+    the three packages the source-order list of lock operations, control structure and struct-field accesses."""
+    out = os.path.join(checklib.LEAN, "Hive", "Gen", "C05_Lockset.lean")
+    tmp = os.path.join(ctx.scratch, "C05_Lockset.lean")
+    args = ["go", "run", "./c05/lockset", tmp, "Hive.Gen.C05Lockset"] + [os.path.join(ctx.repo, p) for p in LOCKSET_PKGS]
+    rc, log = checklib.sh(args, cwd=checklib.HARNESS, timeout=600)
+    if rc != 0 or not os.path.exists(tmp):
+        return [{"kind": "skeleton-extractor", "detail": "lockset: " + checklib.tail(log, 20)}]
+    checklib.write_gen(ctx, out, open(tmp).read())
+    return []
+
+
 def regen(ctx):
     fails = checklib.regen_skeletons(ctx, [
         MAPDB + "mapDB.Get", MAPDB + "mapDB.Has", MAPDB + "mapDB.Set", MAPDB + "mapDB.Delete", MAPDB + "mapDB.DeletePrefix",
@@ -49,12 +104,12 @@ def regen(ctx):
         MAPDB + "batchedMutations.Set", MAPDB + "batchedMutations.Delete", MAPDB + "batchedMutations.Cancel",
         MAPDB + "type=mapDB", MAPDB + "type=batchedMutations", SYNCED + "type=syncedKVMap",
     ], extra_methods=["Load", "Swap"])
-    return (fails or []) + regen_srcpin(ctx)
+    return (fails or []) + regen_srcpin(ctx) + regen_wrapskel(ctx) + regen_lockset(ctx)
 
 
 SPEC = {
-    "lean_props": "Hive.Props.C05",
-    "lean_namespace": ["Hive.KV.Conc", "Hive.KV.Lin"],
+    "lean_props": ["Hive.Props.C05", "Hive.Props.C05Lock"],
+    "lean_namespace": ["Hive.KV.Conc", "Hive.KV.Lin", "Hive.KV.Lockset"],
     "regen": regen,
     "driver": "drv_c05",
     "harness": "c05",
@@ -68,7 +123,11 @@ SPEC = {
                  "C05_skeleton_commit", "C05_skeleton_map_primitives", "C05_skeleton_map_iterate",
                  "C05_unused_lock_is_free", "C05_flag_only_calls", "C05_flag_call_contract",
                  "C05_skeleton_flag_calls", "C05_skeleton_batch_ops", "C05_skeleton_type_locks",
-                 "C05_source_fresh_objects", "C05_source_flushkv", "C05_source_flushkv_forwarders"],
+                 "C05_source_fresh_objects", "C05_source_flushkv", "C05_source_flushkv_forwarders",
+                 "C05_flushkv_calls", "C05_debug_callback", "C05_source_flushkv_realm", "C05_source_debug",
+                 "C05_skeleton_flushkv_mutators", "C05_skeleton_flushkv_forwarders", "C05_skeleton_debug",
+                 "C05_lockset_guard_table", "C05_lockset_mapdb", "C05_lockset_access_sites", "C05_lockset_views_immutable",
+                 "C05_lockset_wrappers_stateless", "C05_lockset_words_cover", "C05_lockset_sound", "C05_lockset_mapdb_all_paths"],
     "trusted_base": [
         "hand-written protocol model Hive/Model/KVConc.lean of kvstore/mapdb's locking (closed-flag load, view RWMutex, map RWMutex, "
         "batch Mutex, one atomic access per map primitive); tied to the working tree by (i) the regenerated synchronisation "
